@@ -38,7 +38,7 @@ MANIFEST_TEXT = ("Generated tightening schedules (including slow one-sided conve
                  "Exhaustive for tiny collections, sampled beyond.")
 MANIFEST_NOTE = "Trusts the synthetic Item class in this module (a list of intervals and an index)."
 DESIGN_REF = 'DESIGN.md section 3, C17'
-SHRINK = {'lists': ['items', 'second', 'falsy'], 'enums': {'style': 'strict', 'initial': None}}
+SHRINK = {'lists': ['items', 'second', 'falsy', 'offer'], 'enums': {'style': 'strict', 'initial': None}}
 
 CALL_BUDGET = 20000
 
@@ -176,6 +176,9 @@ def collections(draw):
             case['initial'] = [lo, hi]
     if draw(st.integers(0, 3)) == 0:
         case['falsy'] = sorted(draw(st.sets(st.integers(0, n - 1), min_size=1, max_size=n)))
+    if draw(st.integers(0, 4)) == 0:
+        # the candidates are offered to the search with repetitions: the same object may be reached through several entries
+        case['offer'] = draw(st.lists(st.integers(0, n - 1), min_size=n, max_size=2 * n + 1))
     return case
 
 
@@ -245,6 +248,11 @@ def check(case):
 
     # search (with the C04 monitor on the search object)
     its = mk()
+    if case.get('offer'):
+        offered = [its[i % len(its)] for i in case['offer']] + its       # every item at least once, some several times
+        its_for_search = offered
+    else:
+        its_for_search = its
     MON.reset()
     MON.active = True
     try:
@@ -252,9 +260,9 @@ def check(case):
             if case.get('initial') is not None:
                 lo, hi = case['initial']
                 known = Range(NEGATIVE_INFINITY if lo is None else lo, POSITIVE_INFINITY if hi is None else hi)
-                s = IterativeTighteningSearch(iter(its), initial_bounds=known)
+                s = IterativeTighteningSearch(iter(its_for_search), initial_bounds=known)
             else:
-                s = IterativeTighteningSearch(iter(its))
+                s = IterativeTighteningSearch(iter(its_for_search))
             best = s.search()
             b = s.bounds()
     finally:
@@ -339,5 +347,7 @@ def check(case):
         out.label('unbounded-start')
     if falsy:
         out.label('falsy-items')
+    if case.get('offer'):
+        out.label('items-offered-repeatedly')
     out.info = {'finals': finals}
     return out
